@@ -314,6 +314,13 @@ func runUDP(c *UDPCase) (fail *failure, class string, nt bool, sig string) {
 	if real && (!realOK() || !realFits(c.Records) || !realFits(c.Dgrams)) {
 		real = false
 	}
+	for _, d := range append(append([]DG(nil), c.Records...), c.Dgrams...) {
+		if d.Len > 65507 { // a real IPv4 socket cannot carry it: the conn double does
+			real = false
+			vkit.Class("udp-feat:datagram-65508..65535")
+			break
+		}
+	}
 	dgrams := c.Dgrams
 	if mode == "idle" {
 		dgrams = nil
@@ -658,7 +665,9 @@ func genDGLen(t *rapid.T, label string, allowHuge bool) int {
 	case 9:
 		return rapid.IntRange(1501, 9000).Draw(t, label)
 	case 10:
-		return 65507
+		// the largest IPv4 datagram, and lengths only the 16-bit prefix bounds (IPv6 /
+		// virtual connections can carry them; the encoder forwards them)
+		return rapid.SampledFrom([]int{65507, 65507, 65508, 65520, 65535}).Draw(t, label+"Edge")
 	default:
 		return rapid.IntRange(9001, 65507).Draw(t, label)
 	}
